@@ -522,3 +522,103 @@ Section FloatInt.
     | Err => Err
     end.
 End FloatInt.
+
+(* =====================================================================
+   text: int(string, base) (library.go int_ / parseInt) and printing
+   Strings are lists of bytes (Z).  big.Int.SetString(s, base) for 2 <= base <= 36
+   on a string without sign is an oracle: all characters must be digits of the
+   base (letters in either case), at least one; the value is positional.
+   ===================================================================== *)
+
+Definition digit_val (c : Z) : option Z :=
+  if (48 <=? c) && (c <=? 57) then Some (c - 48)
+  else if (97 <=? c) && (c <=? 122) then Some (c - 87)
+  else if (65 <=? c) && (c <=? 90) then Some (c - 55)
+  else None.
+
+Fixpoint parse_digits_acc (base acc : Z) (s : list Z) : option Z :=
+  match s with
+  | [] => Some acc
+  | c :: t => match digit_val c with
+              | Some d => if d <? base then parse_digits_acc base (acc * base + d) t else None
+              | None => None
+              end
+  end.
+
+Definition big_SetString (s : list Z) (base : Z) : option Z :=
+  match s with [] => None | _ => parse_digits_acc base 0 s end.
+
+Definition all_zero_digits (s : list Z) : bool := forallb (fun c => c =? 48) s.
+
+(* func parseInt(s string, base int) Value -- None = nil *)
+Definition is_sign (c : Z) : bool := (c =? 43) || (c =? 45).
+
+Definition prefix_base (c : Z) : Z :=
+  if (c =? 111) || (c =? 79) then 8
+  else if (c =? 120) || (c =? 88) then 16
+  else if (c =? 98) || (c =? 66) then 2
+  else 0.
+
+(* the part after sign and prefix handling: base 0 means 10; a second sign is invalid *)
+Definition parse_finish (neg : bool) (s : list Z) (base : Z) : option Z :=
+  let base := if base =? 0 then 10 else base in
+  match s with
+  | c :: _ => if is_sign c then None
+              else match big_SetString s base with
+                   | Some v => Some (if neg then 0 - v else v)
+                   | None => None
+                   end
+  | [] => None     (* SetString("") fails *)
+  end.
+
+Definition parse_unsigned (neg : bool) (s : list Z) (base : Z) : option Z :=
+  match s with
+  | c0 :: c1 :: rest =>
+      if c0 =? 48 then
+        let baseprefix := match rest with [] => 0 | _ => prefix_base c1 end in
+        if negb (baseprefix =? 0) then
+          if (base =? 0) || (baseprefix =? base) then parse_finish neg rest baseprefix
+          else parse_finish neg s base
+        else if base =? 0 then (if all_zero_digits (c1 :: rest) then Some 0 else None)
+        else parse_finish neg s base
+      else parse_finish neg s base
+  | _ => parse_finish neg s base
+  end.
+
+Definition parseInt (s : list Z) (base : Z) : option Z :=
+  match s with
+  | c :: t => if c =? 43 then parse_unsigned false t base
+              else if c =? 45 then parse_unsigned true t base
+              else parse_unsigned false s base
+  | [] => parse_unsigned false s base
+  end.
+
+(* func int_(...) on a string argument; base : None = absent *)
+Definition int_of_string (s : list Z) (base : option Z) : option Z :=
+  match base with
+  | None => parseInt s 10
+  | Some b => if negb (in_int32 b) then None
+              else if negb (b =? 0) && ((b <? 2) || (36 <? b)) then None
+              else parseInt s b
+  end.
+
+(* printing: big.Int.Text(base) / strconv.FormatInt / fmt %d %x %o (oracles): sign, then
+   the positional digits of the absolute value, most significant first *)
+Definition digit_char (d : Z) : Z := if d <? 10 then 48 + d else 87 + d.
+
+Fixpoint digits_of (fuel : nat) (base n : Z) : list Z :=
+  match fuel with
+  | O => [n mod base]
+  | S k => if n <? base then [n] else digits_of k base (n / base) ++ [n mod base]
+  end.
+
+Definition print_int (base z : Z) : list Z :=
+  let a := Z.abs z in
+  (if z <? 0 then [45] else []) ++ map digit_char (digits_of (Z.to_nat (Z.log2 a)) base a).
+
+(* "0x" / "0o" / "0b" literal of z *)
+Definition prefix_of (base : Z) : list Z :=
+  if base =? 16 then [48; 120] else if base =? 8 then [48; 111] else [48; 98].
+Definition print_prefixed (base z : Z) : list Z :=
+  let a := Z.abs z in
+  (if z <? 0 then [45] else []) ++ prefix_of base ++ map digit_char (digits_of (Z.to_nat (Z.log2 a)) base a).
